@@ -106,7 +106,12 @@ def check_scans(ctx, F, b, scans):
         elif o["y"]: lines.append("impscan %s %s %s %d %s" % (cn, order, fixed, o["nvar"], hx(bytes(o["y"]))))
         else: lines.append("impscan %s %s %s %d" % (cn, order, fixed, o["nvar"]))
         meta.append(sc)
-    res = R.run_lines(b, lines, timeout=1500)
+    if len(lines) > 200:        # two driver processes: the validating builds carry nearly all scan work
+        with ThreadPoolExecutor(max_workers=2) as ex:
+            r1, r2 = list(ex.map(lambda ls: R.run_lines(b, ls, timeout=1500), (lines[0::2], lines[1::2])))
+        res = [None] * len(lines); res[0::2] = r1; res[1::2] = r2
+    else:
+        res = R.run_lines(b, lines, timeout=1500)
     n = 0
     for ln, sc, a in zip(lines, meta, res):
         order = sc["order"]; fn = "ecdsa_pub_key_import_" + order; o = sc["out"]
@@ -269,7 +274,8 @@ def tier_b(ctx, F, builds):
     rng = random.Random(ctx.seed + 909)
     quick = ctx.quick; t0 = time.time()
     curves = TOY8 + TOYBIG
-    parts = [("points", R.write_cfg("c09_points.cfg", consts(curves, ctx.seed, Kinds='{"points", "keygen"}'), INV))]
+    parts = [("points", R.write_cfg("c09_points.cfg", consts(curves, ctx.seed, Kinds='{"points"}'), INV)),
+             ("keygen", R.write_cfg("c09_keygen.cfg", consts(curves, ctx.seed, Kinds='{"keygen"}'), INV))]
     prefixes = {0, 4, 5, 6, 7} if quick else set(range(256))
     scan_curves = TOY8 + (["E13"] if quick else TOYBIG)
     for cn in scan_curves:
@@ -298,7 +304,7 @@ def tier_b(ctx, F, builds):
         r2 = random.Random(ctx.seed * 17 + i)
         n = check_points(ctx, F, b, rows_by, quick, r2)
         mine = [s for s in scans if s["val"] == b.pubchk]
-        if b.asan and quick: mine = [s for s in mine if s["out"]["n"] <= 256 or r2.random() < 0.3]
+        if b.asan and quick: mine = [s for s in mine if s["out"]["n"] <= 256 or r2.random() < 0.15]
         n += check_scans(ctx, F, b, mine)
         n += check_keygen(ctx, F, b, kg, rows_by)
         dsel = dh if not (b.asan and quick) else {k: v for k, v in dh.items() if r2.random() < 0.4}
